@@ -6,11 +6,14 @@ id="$1"; pkg="$2"; rx="$3"
 wt=/tmp/cf-$id
 git -C /repo worktree remove --force "$wt" 2>/dev/null; rm -rf "$wt"
 git -C /repo worktree add --detach "$wt" HEAD -q || exit 3
-cp /tmp/seed-$id-demo/*_test.go "$wt/$pkg/"
+mkdir -p "$wt/$pkg"
+if ls /tmp/seed-$id-demo/*_test.go >/dev/null 2>&1; then cp /tmp/seed-$id-demo/*_test.go "$wt/$pkg/"; fi
+# demos delivered as a directory tree (client/…, lib/…) are laid over the worktree
+for d in client lib wallet; do [ -d /tmp/seed-$id-demo/$d ] && cp -r /tmp/seed-$id-demo/$d "$wt/"; done
 (cd "$wt" && timeout 900 go test -vet=off -count=1 -run "$rx" "./$pkg/" > /tmp/cf-$id.clean.log 2>&1); c1=$?
 git -C "$wt" apply /tmp/seed-$id.patch || { echo "$id: PATCH DOES NOT APPLY"; exit 3; }
 (cd "$wt" && timeout 900 go test -vet=off -count=1 -run "$rx" "./$pkg/" > /tmp/cf-$id.mut.log 2>&1); c2=$?
-rm -f "$wt/$pkg/"seed_demo*_test.go
+find "$wt" -name 'seed_*_test.go' -delete; rm -rf "$wt/seeddemo"
 b=$(VERIF_REPO="$wt" /verif/baseline.sh | head -1)
 echo "$id: demo on clean exit=$c1 (want 0), demo with change exit=$c2 (want !=0), $b"
 if [ $c1 -eq 0 ] && [ $c2 -ne 0 ] && echo "$b" | grep -q "87/87"; then
